@@ -239,42 +239,91 @@ def quick_family() -> List[Skeleton]:
 
 
 def thorough_family() -> List[Skeleton]:
-    """systematic closure: every operator over every pair of item kinds, in each context, depth 3"""
+    """systematic closure: every operator over every pair of depth-1 items, in each context (depth 3), every `times`
+    variant on every operator, every deref presence pattern x field kind, every register family x (first, later)
+    suffix pair, later capture occurrences in every operator position"""
     out = quick_family()
     nm = Namer()
     nm.n = 10000
+    ALLOPS = OPS + ("$not",)
 
-    def instr_items(depth: int) -> List[E]:
-        base = [E(nm.m()), E(nm.m(), [E(nm.o())]), E(nm.m(), None, 2)]
-        if depth == 0:
-            return base
-        sub = instr_items(depth - 1)
-        res = list(base)
+    def instr_pool() -> List[E]:
+        pool = [E(nm.m()), E(nm.m(), [E(nm.o())]), E(nm.m(), [E(nm.o()), E(nm.o())]), E(nm.m(), None, 2),
+                E(nm.m(), [E(nm.o())], {"min": 0, "max": 2})]
         for op in OPS:
-            for a, b in itertools.product(sub[:4], repeat=2):
-                res.append(E(op, [a, b]))
-            res.append(E(op, [sub[0], sub[1]], {"min": 1, "max": 2}))
-        for a in sub[:5]:
-            res.append(E("$not", [a]))
-        return res
+            pool.append(E(op, [E(nm.m()), E(nm.m(), [E(nm.o())])]))
+            pool.append(E(op, [E(nm.m()), E(nm.m())], {"min": 1, "max": 3}))
+        pool.append(E("$not", [E(nm.m())]))
+        pool.append(E("$not", [E(nm.m(), [E(nm.o())])], 2))
+        return pool
 
-    def op_items(depth: int) -> List[E]:
-        base = [E(nm.o()), E("$deref", fields={"main_reg": E(nm.d()), "constant_offset": E(nm.d())})]
-        if depth == 0:
-            return base
-        sub = op_items(depth - 1)
-        res = list(base)
+    def op_pool() -> List[E]:
+        pool = [E(nm.o()), E(3), E("$deref", fields={"main_reg": E(nm.d()), "constant_offset": E(nm.d())}),
+                E("$deref", fields={"main_reg": E(nm.d()), "register_multiplier": E(nm.d()), "constant_multiplier": E(4)})]
         for op in OPS:
-            for a, b in itertools.product(sub[:3], repeat=2):
-                res.append(E(op, [a, b]))
-            res.append(E(op, [sub[0], sub[0]], 2))
-        for a in sub[:4]:
-            res.append(E("$not", [a]))
-        return res
+            pool.append(E(op, [E(nm.o()), E(nm.o())]))
+            pool.append(E(op, [E(nm.o()), E(nm.o())], 2))
+        pool.append(E("$not", [E(nm.o())]))
+        return pool
 
-    for i, it in enumerate(instr_items(2)):
-        out.append(Skeleton(f"closure instr #{i} {it.label()}", [E(nm.m()), it, E(nm.m())], ("closure",)))
-    for i, it in enumerate(op_items(2)):
-        out.append(Skeleton(f"closure operand #{i} {it.label()}", [E(nm.m(), [E(nm.o()), it, E(nm.o())])],
-                            ("closure", "opnd")))
+    ipool, opool = instr_pool(), op_pool()
+    k = 0
+    for op in ALLOPS:
+        for a in ipool:
+            kids_list = [[a]] if op == "$not" else [[a, b] for b in ipool]
+            for kids in kids_list:
+                for t in (None, 2, {"min": 0, "max": 3}):
+                    if t is not None and k % 3:
+                        k += 1
+                        continue
+                    k += 1
+                    out.append(Skeleton(f"closure instr {op}{'*' + str(t) if t else ''} [{','.join(x.label() for x in kids)}]"[:150],
+                                        [E(nm.m()), E(op, kids, t), E(nm.m())], ("closure", "ops", "times" if t else "ops",
+                                                                                   "not" if op == "$not" or any("$not" in x.label() for x in kids) else "ops")))
+    for op in ALLOPS:
+        for a in opool:
+            kids_list = [[a]] if op == "$not" else [[a, b] for b in opool]
+            for kids in kids_list:
+                for t in (None, 2):
+                    if t is not None and k % 2:
+                        k += 1
+                        continue
+                    k += 1
+                    out.append(Skeleton(f"closure operand {op}{'*' + str(t) if t else ''} [{','.join(x.label() for x in kids)}]"[:150],
+                                        [E(nm.m(), [E(nm.o()), E(op, kids, t), E(nm.o())])],
+                                        ("closure", "opnd", "ops", "times" if t else "ops", "deref" if any("$deref" in x.label() for x in kids) else "ops",
+                                         "not" if op == "$not" or any("$not" in x.label() for x in kids) else "ops")))
+    # deref: presence pattern x field kind
+    kinds = {"plain": lambda: E(nm.d()), "int": lambda: E(8), "or": lambda: E("$or", [E(nm.d()), E(nm.d())]),
+             "later-capture": lambda: E("&z"), "later-register": lambda: E("&genreg.64")}
+    for b, c, kk in itertools.product([False, True], repeat=3):
+        for kind, mk in kinds.items():
+            f: Dict[str, Any] = {"main_reg": mk() if kind != "int" else E(nm.d())}
+            if kk:
+                f["constant_offset"] = mk()
+            if b:
+                f["register_multiplier"] = mk() if kind != "int" else E(nm.d())
+            if c:
+                f["constant_multiplier"] = mk()
+            pre = [E(nm.m(), [E("&z"), E("&genreg")])] if kind.startswith("later") else []
+            out.append(Skeleton(f"closure deref b={b} c={c} k={kk} fields={kind}", pre + [E(nm.m(), [E("$deref", fields=f), E(nm.o())])],
+                                ("closure", "deref", "cap" if pre else "deref")))
+    # register families: every (first, later) suffix pair
+    for fam in REG_FAMILIES:
+        sufs = [x for x in REG_SUFFIXES if not (fam != "&genreg" and x == ".8H")]
+        for s1 in sufs:
+            for s2 in sufs:
+                if not s2:
+                    continue
+                out.append(Skeleton(f"closure {fam}{s1} then {s2}", [E(nm.m(), [E(fam + s1)]), E(nm.m(), [E(nm.o()), E(fam + s2)]),
+                                                                  E(nm.m(), [E("$deref", fields={"main_reg": E(fam + s2)})])],
+                                    ("closure", "cap", "regcap")))
+    # later occurrences of captures in every operator position
+    for op in ALLOPS:
+        kids_i = [E("&i")] if op == "$not" else [E("&i"), E(nm.m())]
+        kids_o = [E("&x")] if op == "$not" else [E("&x"), E(nm.o())]
+        for t in (None, 2):
+            out.append(Skeleton(f"closure later instr capture under {op}{'*2' if t else ''}", [E("&i"), E(op, kids_i, t)], ("closure", "cap", "ops")))
+            out.append(Skeleton(f"closure later operand capture under {op}{'*2' if t else ''}",
+                                [E(nm.m(), [E("&x"), E("&y")]), E(nm.m(), [E(op, kids_o, t), E("&y")])], ("closure", "cap", "ops", "opnd")))
     return out
